@@ -4,6 +4,7 @@ import (
 	"bytes"
 	"encoding/binary"
 	"github.com/LemoFoundationLtd/lemochain-core/common/rlp"
+	"github.com/LemoFoundationLtd/lemochain-core/store/crashpoint"
 	"io"
 	"os"
 	"time"
@@ -96,6 +97,10 @@ func FileUtilsFlush(path string, offset int64, data []byte) (int64, error) {
 		return -1, err
 	}
 
+	if cut, torn := crashpoint.Cut("flush-write", path, len(data)); torn {
+		file.Write(data[:cut])
+		crashpoint.Die()
+	}
 	n, err := file.Write(data)
 	if err != nil {
 		return -1, err
@@ -105,10 +110,12 @@ func FileUtilsFlush(path string, offset int64, data []byte) (int64, error) {
 		panic("n != len(data)")
 	}
 
+	crashpoint.Hit("flush-written", path)
 	err = file.Sync()
 	if err != nil {
 		return -1, err
 	}
+	crashpoint.Hit("flush-synced", path)
 
 	return int64(n), nil
 }
